@@ -89,6 +89,16 @@ theorem coord_grid (S n k h : Int) (s : K) (hs : s ≠ 0) :
   · unfold coord; push_cast; field_simp; ring
   · intro hS; unfold coord; rw [hS]; push_cast; field_simp; ring
 
+/-- the grid the source builds (regenerated from util.py on every run) is the model's: each axis gets `⌈n·s⌉` samples from ITS OWN
+length, the row coordinates are centred with the row counts and the column coordinates with the column counts, row coordinates go
+to `map_coordinates` first, and each coordinate vector has the length of its own axis -/
+theorem grid_uses_own_axis (n0 n1 S0 S1 i j : Int) (s : K) :
+    gridShape Int.ceil (fun k => (k : K)) n0 n1 s = (outShape Int.ceil (fun k => (k : K)) n0 s, outShape Int.ceil (fun k => (k : K)) n1 s) ∧
+    gridRow (fun k => (k : K)) (2 : K) S0 S1 n0 n1 s i = coord (fun k => (k : K)) (2 : K) S0 n0 s i ∧
+    gridCol (fun k => (k : K)) (2 : K) S0 S1 n0 n1 s j = coord (fun k => (k : K)) (2 : K) S1 n1 s j ∧
+    Gen.rescaleCoordOrder = ["y", "x"] ∧ Gen.rescaleCoordYLen = "S0" ∧ Gen.rescaleCoordXLen = "S1" := by
+  refine ⟨rfl, rfl, rfl, rfl, rfl, rfl⟩
+
 /-- the rescaled arrays have `⌈n·s⌉` samples: the smallest integer count whose span covers the `n·s` new-grid samples -/
 theorem rescale_shape (n : Int) (s : K) :
     outShape Int.ceil (fun k => (k : K)) n s = ⌈(n : K) * s⌉ ∧
@@ -171,6 +181,52 @@ theorem constant_aperture_power (n0 n1 : Nat) (a s : K) (hs : 0 < s) :
   constructor
   · exact mul_le_mul_of_nonneg_right (mul_le_mul a0 a1 hn1 (le_trans hn0 a0)) ha2
   · exact mul_le_mul_of_nonneg_right (mul_le_mul b0 b1 (le_trans hn1 a1) (le_trans (le_trans hn0 a0) b0)) ha2
+
+/-- rescaling by `s` and then by `1/s` returns the pixel scale exactly and, when `n·s` is a whole number of samples, the shape -/
+theorem rescale_roundtrip (px0 px1 s : K) (hs : 0 < s) (n m : Int) (hnm : (n : K) * s = (m : K)) :
+    (planePixelscale (some (px0, px1)) s).bind (fun q => planePixelscale (some q) (1 / s)) = some (px0, px1) ∧
+    outShape Int.ceil (fun k => (k : K)) (outShape Int.ceil (fun k => (k : K)) n s) (1 / s) = n := by
+  have hs' : s ≠ 0 := ne_of_gt hs
+  constructor
+  · simp only [planePixelscale, Option.map_some, Option.bind_some, Option.some.injEq, Prod.mk.injEq]
+    constructor <;> field_simp
+  · have h1 : outShape Int.ceil (fun k => (k : K)) n s = m := by
+      simp only [outShape]; rw [hnm]; exact Int.ceil_intCast m
+    rw [h1]
+    simp only [outShape]
+    have : (m : K) * (1 / s) = (n : K) := by rw [← hnm]; field_simp
+    rw [this]; exact Int.ceil_intCast n
+
+/-- segment structure under nearest-sample resampling (`order=0`): every output pixel takes the mask values of ONE source pixel
+`(ry i, rx j)`, so segments that were pairwise disjoint stay pairwise disjoint, a pixel covered by some segment comes from a covered
+source pixel, and the union of the rescaled segments is the rescaled union -/
+theorem segments_stay_disjoint (segs : List (Int → Int → K)) (ry rx : Int → Int)
+    (hdis : ∀ a b, ((segs.filter fun m => decide (m a b ≠ 0)).length ≤ 1)) (i j : Int) :
+    let segs' := segs.map fun m => fun a b => binarise (m (ry a) (rx b))
+    (segs'.filter fun m => decide (m i j ≠ 0)).length ≤ 1 ∧
+    ((segs'.map fun m => m i j).sum = if (segs.filter fun m => decide (m (ry i) (rx j) ≠ 0)).length = 0 then 0 else 1) := by
+  intro segs'
+  have hlen : (segs'.filter fun m => decide (m i j ≠ 0)).length = (segs.filter fun m => decide (m (ry i) (rx j) ≠ 0)).length := by
+    simp only [segs', List.filter_map, List.length_map]
+    congr 1
+    apply List.filter_congr
+    intro m _
+    by_cases h : m (ry i) (rx j) = 0 <;> simp [binarise, h]
+  have hsum : ∀ l : List (Int → Int → K), ((l.map fun m => fun a b => binarise (m (ry a) (rx b))).map fun m => m i j).sum
+      = ((l.filter fun m => decide (m (ry i) (rx j) ≠ 0)).length : Int) := by
+    intro l
+    induction l with
+    | nil => simp
+    | cons m ms ih =>
+      simp only [List.map_cons, List.sum_cons, ih]
+      by_cases h : m (ry i) (rx j) = 0 <;> simp [binarise, h, List.filter_cons] <;> omega
+  refine ⟨by rw [hlen]; exact hdis _ _, ?_⟩
+  rw [hsum segs]
+  have := hdis (ry i) (rx j)
+  split_ifs with h0
+  · exact_mod_cast h0
+  · have h1 : (segs.filter fun m => decide (m (ry i) (rx j) ≠ 0)).length = 1 := by omega
+    exact_mod_cast h1
 
 /-- the mask stays binary and a segmented mask keeps its segments -/
 theorem mask_binary_segments_kept (segs : List (Int → Int → K)) (i j : Int) :
